@@ -60,6 +60,9 @@ CHECKS = {
  'C16': ('exploration', 'hx+ovl', 'reference consistency predicate (sandwich on "supported") over generated directories; directory-invariant monitor after every operation of generated agent histories; exit-status monitor on the built binary',
          'Thousands of generated directories (extensions, contents, duplicates across extensions, .tmp variants, shuffled creation order, 1-40 entries) are judged by Check and by a reference predicate; Init must succeed exactly on empty directories and yield a valid store; after every completed operation of sequential agent histories (and a concurrent login/set-admin race with large auxiliary data) the directory invariants must hold; every command of the binary except init/check must exit 3 on invalid directories without changing them and run with --do-check=false.',
          'Directories are built from valid names only (the property quantifier).', '5 C16'),
+ 'C20': ('exploration', 'pamh+hx', 'AddressSanitizer + UBSan build of the unmodified C module driven by a scripted misbehaving server; syscall-wrapper monitor (select/read/write) for the bounded-time rule; exact reply-prefix oracle',
+         'The module is compiled from /repo with clang -fsanitize=address,undefined against stub PAM headers and run against a scripted unix-socket server over ~420 cases (all option subsets x password sources, user/password lengths 0..4096, reply grammar incl. over-long and mis-announced lengths, replies cut at every byte, dribble, early close, silence and delays on both sides of the timeout, short reads/writes and EINTR injected by wrappers): PAM_SUCCESS exactly when the readable reply begins with OK, request bytes equal the saslauthd encoding of the clipped fields, every socket read/write preceded by a finite select, no sanitizer report.',
+         'Stub PAM runtime; sanitizers are not a proof of memory safety; fds >= FD_SETSIZE out of scope.', '5 C20'),
 }
 
 def main():
